@@ -15,6 +15,6 @@ func runC08(rc *runCtx) error {
 	if rc.thorough() {
 		nfiles = 32
 	}
-	return runHistoriesX(rc, "c08", n, []int{0, 1, 2, 3, 4}, true, nfiles,
+	return runHistoriesX(rc, "c08", n, []int{0, 1, 2, 3, 4, 5}, true, nfiles,
 		[]string{"Bytes", "Pack", "Value", "Obs", "Run_C08"}, "hist", "C08")
 }
